@@ -108,7 +108,7 @@ def check(ctx: Ctx) -> str:
     s = up.ntext
     ctx.check("self._uptodate is None" in s and "return self._uptodate()" in s, "Template.is_up_to_date", "environment:Template.is_up_to_date", "delegation", "is_up_to_date must return self._uptodate() when a callable was supplied", up.loc())
     fc = repo.func("environment:Template.from_code")
-    ctx.check("rv._uptodate = uptodate" in ast.unparse(fc.node), "from_code:uptodate", "environment:Template.from_code", "uptodate stored", "from_code must keep the loader's uptodate callable", fc.loc())
+    ctx.check(any(isinstance(a, ast.Assign) and isinstance(a.targets[0], ast.Attribute) and a.targets[0].attr == "_uptodate" and ast.unparse(a.value) == "uptodate" for a in ast.walk(fc.node)), "from_code:uptodate", "environment:Template.from_code", "uptodate stored", "from_code must keep the loader's uptodate callable", fc.loc())
     bl = repo.func("loaders:BaseLoader.load")
     s = ast.unparse(bl.node)
     ctx.check("source, filename, uptodate = self.get_source(environment, name)" in s and "from_code(environment, code, globals, uptodate)" in s, "BaseLoader.load:uptodate", "loaders:BaseLoader.load", "uptodate passed on", "BaseLoader.load must hand the loader's uptodate callable to from_code", bl.loc())
